@@ -21,12 +21,12 @@ import (
 
 func init() {
 	simkit.Register(&simkit.Prop{
-		ID:   "C33",
-		Desc: "cross-chain headers need signatures of two thirds of distinct peers",
-		Rule: "a run = a ledger whose header-sync contract first stores a side chain's genesis header (4..7 consensus peers) through a real syncGenesisHeader transaction, then 4..16 syncBlockHeader transactions from a Byzantine relayer carrying side-chain headers with tape-chosen signer sections: k distinct members with valid signatures (k around the 2/3 bound), one member listed several times with repeated signatures, non-members, invalid / swapped signatures, fewer signatures than bookkeepers; some headers carry a new chain configuration, which changes the peer set governing later heights (history dimension); headers travel as bytes inside real transactions in real blocks. Oracle: a header is STORED by the contract (read back from contract storage) only if the number of DISTINCT members of the governing peer set with a valid signature over the header hash, times 3, is at least the peer count times 2. non-trivial = >= 1 header accepted and >= 1 rejected with the oracle evaluated; distinct = distinct event-trace hash",
-		Real: []string{"smartcontract/service/native/cross_chain/header_sync (SyncGenesisHeader, SyncBlockHeader, VerifyHeader)", "cross_chain/common header codec", "core/signature", "core/store/ledgerstore + NeoVM native invoke path", "global_params operator check"},
-		Stub: []string{"solo block producer", "side chain (harness builds and signs its headers)", "relayer (harness)"},
-		Assumptions: []string{"the only simulator dimensions are forgery by a Byzantine relayer and the history of peer-set changes"},
+		ID:             "C33",
+		Desc:           "cross-chain headers need signatures of two thirds of distinct peers",
+		Rule:           "a run = a ledger whose header-sync contract first stores a side chain's genesis header (4..7 consensus peers) through a real syncGenesisHeader transaction, then 4..16 syncBlockHeader transactions from a Byzantine relayer carrying side-chain headers with tape-chosen signer sections: k distinct members with valid signatures (k around the 2/3 bound), one member listed several times with repeated signatures, non-members, invalid / swapped signatures, fewer signatures than bookkeepers; some headers carry a new chain configuration, which changes the peer set governing later heights (history dimension); headers travel as bytes inside real transactions in real blocks. Oracle: a header is STORED by the contract (read back from contract storage) only if the number of DISTINCT members of the governing peer set with a valid signature over the header hash, times 3, is at least the peer count times 2. non-trivial = >= 1 header accepted and >= 1 rejected with the oracle evaluated; distinct = distinct event-trace hash",
+		Real:           []string{"smartcontract/service/native/cross_chain/header_sync (SyncGenesisHeader, SyncBlockHeader, VerifyHeader)", "cross_chain/common header codec", "core/signature", "core/store/ledgerstore + NeoVM native invoke path", "global_params operator check"},
+		Stub:           []string{"solo block producer", "side chain (harness builds and signs its headers)", "relayer (harness)"},
+		Assumptions:    []string{"the only simulator dimensions are forgery by a Byzantine relayer and the history of peer-set changes"},
 		ExpectedProbes: []string{"header_accepted", "header_rejected", "peer_set_changed"},
 		Run:            runC33,
 	})
